@@ -16,7 +16,9 @@
 (***************************************************************************)
 EXTENDS Naturals, Sequences, FiniteSets, TLC, Json
 
-CONSTANTS N, Minor, EMIT
+CONSTANTS N, Minor, EMIT,
+          Tmpl     \* "mixed": cells of different families and kinds; "similar": code cells of ONE family whose
+                   \* sources differ only moderately and whose stream outputs are alike (hard to align without ids)
 
 VARIABLES owner, act, ins
 vars == <<owner, act, ins>>
@@ -25,18 +27,26 @@ Cell(cid, fam, kind, src, outs, md, ec, att) ==
   [cid |-> cid, fam |-> fam, kind |-> kind, src |-> src, outs |-> outs,
    md |-> md, ec |-> ec, att |-> att]
 
-Template == << Cell(1, 1, "code", 0, 1, 0, 1, 0),
-               Cell(2, 2, "markdown", 0, 0, 0, 0, 1),
-               Cell(3, 3, "code", 0, 2, 1, 2, 0),
-               Cell(4, 5, "markdown", 0, 0, 2, 0, 0) >>
+Template == IF Tmpl = "similar"
+            THEN << Cell(1, 3, "code", 0, 1, 0, 1, 0),
+                    Cell(2, 3, "code", 2, 1, 0, 2, 0),
+                    Cell(3, 1, "code", 0, 1, 0, 1, 0),
+                    Cell(4, 3, "code", 2, 3, 1, 2, 0) >>
+            ELSE << Cell(1, 1, "code", 0, 1, 0, 1, 0),
+                    Cell(2, 2, "markdown", 0, 0, 0, 0, 1),
+                    Cell(3, 3, "code", 0, 2, 1, 2, 0),
+                    Cell(4, 5, "markdown", 0, 0, 2, 0, 0) >>
 BaseCells == SubSeq(Template, 1, N)
 
-Actions(c) == {"src1", "src2", "md", "del"} \cup
+\* In the "similar" template a source edit must leave the cell closer to its own base version than to its
+\* neighbour (without ids nothing else identifies WHICH cell was edited): only the small edit of a variant-0 cell.
+Actions(c) == (IF Tmpl = "similar" THEN (IF c.src = 0 THEN {"src1"} ELSE {}) ELSE {"src1", "src2"})
+              \cup {"md", "del"} \cup
               (IF c.kind = "code" THEN {"outs", "ec", "rerun"} ELSE {"att"})
 
 Apply(c, a) ==
-  CASE a = "src1"  -> [c EXCEPT !.src = 1]
-    [] a = "src2"  -> [c EXCEPT !.src = 2]
+  CASE a = "src1"  -> [c EXCEPT !.src = IF c.src = 1 THEN 0 ELSE 1]
+    [] a = "src2"  -> [c EXCEPT !.src = IF c.src = 2 THEN 0 ELSE 2]
     [] a = "md"    -> [c EXCEPT !.md = (c.md + 1) % 3]
     [] a = "outs"  -> [c EXCEPT !.outs = (c.outs + 2) % 7]
     [] a = "ec"    -> [c EXCEPT !.ec = (c.ec % 2) + 1]
